@@ -11,20 +11,26 @@ set_option linter.unusedSectionVars false
 
 variable {K : Type} [Field K] [LinearOrder K] [IsStrictOrderedRing K] [FloorRing K]
 
-/-- the invariant of the heap: no list is empty, and what objects and open streams cached as
-    "the length of my table" is the length of the list they refer to -/
+/-- the invariant of the heap: no list is empty, every object's `_table` is a list, and what
+    objects and open streams cached as "the length of my table" is the length of the list they
+    refer to -/
 def WF (h : Heap K) : Prop :=
   (∀ xs ∈ h.lists, xs ≠ []) ∧
-  (∀ o ∈ h.objs, ∃ xs, h.lists[o.tbl]? = some xs ∧ o.len = xs.length) ∧
-  (∀ s ∈ h.oscs, s.dead = false ∧ ∃ xs, h.lists[s.tbl]? = some xs ∧ s.len = xs.length)
+  (∀ o ∈ h.objs, o.broken = false ∧ ∃ xs, h.lists[o.tbl]? = some xs ∧ o.len = xs.length) ∧
+  (∀ s ∈ h.oscs, (s.dead = false ∧ s.broken = false) ∧ ∃ xs, h.lists[s.tbl]? = some xs ∧ s.len = xs.length)
 
-/-- operations that keep the invariant: everything but an in-place change of a list's length
-    (and creating an empty list) -/
+/-- operations that keep the invariant: everything but an in-place change of a list's length,
+    the assignment of something without a length to `table` (and creating an empty list) -/
 def HOp.safe : HOp K → Prop
   | .newList xs => xs ≠ []
   | .append _ _ => False
   | .pop _ => False
+  | .setTableUnsized _ => False
   | _ => True
+
+def HOp.isUnsizedAssign : HOp K → Prop
+  | .setTableUnsized _ => True
+  | _ => False
 
 /-- the operation changes list `l` in place -/
 def HOp.mutatesList (l : Nat) : HOp K → Prop
@@ -116,22 +122,24 @@ theorem obj?_some {h : Heap K} {i : Nat} {o : TL K} {t : List K} (e : h.obj? i =
   · next o' ho =>
     split at e
     · cases e
-    · next xs hx =>
-      cases e
-      exact ⟨ho, hx⟩
+    · split at e
+      · cases e
+      · next xs hx =>
+        cases e
+        exact ⟨ho, hx⟩
 
 /-- under the invariant the cached length of an object is the length of its table, which is not empty -/
 theorem WF.obj {h : Heap K} (w : WF h) {i : Nat} {o : TL K} {t : List K} (e : h.obj? i = some (o, t)) :
     o.len = t.length ∧ t ≠ [] := by
   obtain ⟨ho, ht⟩ := obj?_some e
-  obtain ⟨xs, hx, hl⟩ := w.2.1 o (List.mem_of_getElem? ho)
+  obtain ⟨_, xs, hx, hl⟩ := w.2.1 o (List.mem_of_getElem? ho)
   rw [ht] at hx; cases hx
   exact ⟨hl, w.1 t (List.mem_of_getElem? ht)⟩
 
 theorem WF.obj_of_get {h : Heap K} (w : WF h) {i : Nat} {o : TL K} (ho : h.objs[i]? = some o) :
     ∃ t, h.obj? i = some (o, t) := by
-  obtain ⟨xs, hx, _⟩ := w.2.1 o (List.mem_of_getElem? ho)
-  exact ⟨xs, by simp [Heap.obj?, ho, hx]⟩
+  obtain ⟨hb, xs, hx, _⟩ := w.2.1 o (List.mem_of_getElem? ho)
+  exact ⟨xs, by simp [Heap.obj?, ho, hx, hb]⟩
 
 theorem WF.lists_append {h : Heap K} (w : WF h) (xs : List K) (hx : xs ≠ []) :
     WF { h with lists := h.lists ++ [xs] } := by
@@ -142,43 +150,43 @@ theorem WF.lists_append {h : Heap K} (w : WF h) (xs : List K) (hx : xs ≠ []) :
     · exact w1 _ hy
     · rw [List.mem_singleton] at hy; subst hy; exact hx
   · intro o ho
-    obtain ⟨ys, e, l⟩ := w2 o ho
-    exact ⟨ys, getElem?_append_some _ e, l⟩
+    obtain ⟨b, ys, e, l⟩ := w2 o ho
+    exact ⟨b, ys, getElem?_append_some _ e, l⟩
   · intro s hs
     obtain ⟨d, ys, e, l⟩ := w3 s hs
     exact ⟨d, ys, getElem?_append_some _ e, l⟩
 
 theorem WF.objs_append {h : Heap K} (w : WF h) {l : Nat} {xs : List K} (e : h.lists[l]? = some xs) (c : K) :
-    WF { h with objs := h.objs ++ [{ tbl := l, len := xs.length, cycles := c }] } := by
+    WF { h with objs := h.objs ++ [{ tbl := l, len := xs.length, cycles := c, broken := false }] } := by
   obtain ⟨w1, w2, w3⟩ := w
   refine ⟨w1, ?_, w3⟩
   intro o ho
   rcases List.mem_append.mp ho with ho | ho
   · exact w2 o ho
-  · rw [List.mem_singleton] at ho; subst ho; exact ⟨xs, e, rfl⟩
+  · rw [List.mem_singleton] at ho; subst ho; exact ⟨rfl, xs, e, rfl⟩
 
 theorem WF.objs_set {h : Heap K} (w : WF h) (i : Nat) {l : Nat} {xs : List K} (e : h.lists[l]? = some xs) (c : K) :
-    WF { h with objs := h.objs.set i { tbl := l, len := xs.length, cycles := c } } := by
+    WF { h with objs := h.objs.set i { tbl := l, len := xs.length, cycles := c, broken := false } } := by
   obtain ⟨w1, w2, w3⟩ := w
   refine ⟨w1, ?_, w3⟩
   intro o ho
   rcases List.mem_or_eq_of_mem_set ho with ho | ho
   · exact w2 o ho
-  · subst ho; exact ⟨xs, e, rfl⟩
+  · subst ho; exact ⟨rfl, xs, e, rfl⟩
 
 theorem WF.oscs_append {h : Heap K} (w : WF h) {l : Nat} {xs : List K} (e : h.lists[l]? = some xs)
     (den : K) (f p : Arg K) (pos : Nat) :
     WF { h with oscs := h.oscs ++ [{ tbl := l, len := xs.length, den := den, freq := f, phase := p,
-                                     pos := pos, dead := false }] } := by
+                                     pos := pos, dead := false, broken := false }] } := by
   obtain ⟨w1, w2, w3⟩ := w
   refine ⟨w1, w2, ?_⟩
   intro s hs
   rcases List.mem_append.mp hs with hs | hs
   · exact w3 s hs
-  · rw [List.mem_singleton] at hs; subst hs; exact ⟨rfl, xs, e, rfl⟩
+  · rw [List.mem_singleton] at hs; subst hs; exact ⟨⟨rfl, rfl⟩, xs, e, rfl⟩
 
 theorem WF.oscs_set {h : Heap K} (w : WF h) (i : Nat) {o : Osc K} (ho : h.oscs[i]? = some o) (pos : Nat) :
-    WF { h with oscs := h.oscs.set i { o with pos := pos, dead := false } } := by
+    WF { h with oscs := h.oscs.set i { o with pos := pos, dead := false, broken := false } } := by
   obtain ⟨w1, w2, w3⟩ := w
   refine ⟨w1, w2, ?_⟩
   intro s hs
@@ -186,7 +194,7 @@ theorem WF.oscs_set {h : Heap K} (w : WF h) (i : Nat) {o : Osc K} (ho : h.oscs[i
   · exact w3 s hs
   · subst hs
     obtain ⟨_, xs, e, l⟩ := w3 o (List.mem_of_getElem? ho)
-    exact ⟨rfl, xs, e, l⟩
+    exact ⟨⟨rfl, rfl⟩, xs, e, l⟩
 
 theorem getElem?_set_some {β : Type} {l : List β} {i j : Nat} {x y : β} (z : β)
     (hi : l[i]? = some x) (hj : l[j]? = some y) :
@@ -208,8 +216,8 @@ theorem WF.lists_set {h : Heap K} (w : WF h) {l : Nat} {xs ys : List K} (e : h.l
     · exact w1 _ hz
     · subst hz; exact ne_nil_of_length_eq hl hx
   · intro o ho
-    obtain ⟨zs, ez, lz⟩ := w2 o ho
-    refine ⟨if l = o.tbl then ys else zs, getElem?_set_some ys e ez, ?_⟩
+    obtain ⟨b, zs, ez, lz⟩ := w2 o ho
+    refine ⟨b, if l = o.tbl then ys else zs, getElem?_set_some ys e ez, ?_⟩
     by_cases c : l = o.tbl
     · subst c; rw [e] at ez; cases ez; simp [hl, lz]
     · simp [c, lz]
@@ -254,13 +262,14 @@ theorem step_WF (denOf : K → K) (h : Heap K) (op : HOp K) (w : WF h) (hs : op.
     split
     · next o xs ho e => exact w.objs_set i e o.cycles
     · exact w
+  | setTableUnsized i => exact absurd hs id
   | setCycles i c =>
     simp only [step]
     split
     · next o ho =>
-      obtain ⟨xs, e, hl⟩ := w.2.1 o (List.mem_of_getElem? ho)
+      obtain ⟨hb, xs, e, hl⟩ := w.2.1 o (List.mem_of_getElem? ho)
       have := w.objs_set i e c
-      rw [← hl] at this
+      rw [← hl, ← hb] at this
       exact this
     · exact w
   | setItem l k v =>
@@ -282,6 +291,7 @@ theorem step_WF (denOf : K → K) (h : Heap K) (op : HOp K) (w : WF h) (hs : op.
       · split
         · exact w
         · exact w.alloc _ (zipWith_ne_nil (w.obj e1).2 (w.obj e2).2) _
+    · exact w
     · exact w
   | scalar op i x r known =>
     simp only [step]
@@ -324,17 +334,18 @@ theorem step_WF (denOf : K → K) (h : Heap K) (op : HOp K) (w : WF h) (hs : op.
     · next o ho =>
       split
       · exact w
-      · obtain ⟨xs, e, hl⟩ := w.2.1 o (List.mem_of_getElem? ho)
+      · obtain ⟨hb, xs, e, hl⟩ := w.2.1 o (List.mem_of_getElem? ho)
         have := w.oscs_append e (denOf o.cycles) f p 0
         rw [← hl] at this
+        rw [hb]
         exact this
   | read s k =>
     simp only [step]
     split
     · exact w
     · next o ho =>
-      obtain ⟨hd, xs, e, hl⟩ := w.2.2 o (List.mem_of_getElem? ho)
-      rw [hd]
+      obtain ⟨⟨hd, hb⟩, xs, e, hl⟩ := w.2.2 o (List.mem_of_getElem? ho)
+      rw [hd, hb]
       simp only [Bool.false_eq_true, if_false]
       rw [e]
       simp only
@@ -373,19 +384,20 @@ theorem runHeap_WF (denOf : K → K) (ops : List (HOp K)) : ∀ (h : Heap K), WF
 theorem obj?_none_of_objs {h : Heap K} {i : Nat} (e : h.objs[i]? = none) : h.obj? i = none := by
   simp [Heap.obj?, e]
 
-theorem step_eq_specStep (denOf : K → K) (h : Heap K) (op : HOp K) (w : WF h) :
+theorem step_eq_specStep (denOf : K → K) (h : Heap K) (op : HOp K) (w : WF h) (hs : op.safe) :
     step denOf h op = specStep denOf h op := by
   cases op with
+  | setTableUnsized i => exact absurd hs id
   | read s k =>
     cases ho : h.oscs[s]? with
     | none => simp only [step, specStep, ho]
     | some o =>
-      obtain ⟨hd, xs, e, hl⟩ := w.2.2 o (List.mem_of_getElem? ho)
+      obtain ⟨⟨hd, hb⟩, xs, e, hl⟩ := w.2.2 o (List.mem_of_getElem? ho)
       have hx : xs ≠ [] := w.1 xs (List.mem_of_getElem? e)
       have key : ((oscPositions o.len o.den o.freq o.phase (o.pos + k)).drop o.pos).map (lookupAtLen xs o.len)
           = (oscSpec xs o.den o.freq o.phase o.pos k).map some := by
         rw [hl]; exact osc_read_eq xs hx _ _ _ _ _
-      simp only [step, specStep, ho, hd, e, key, takeOk_map_some]
+      simp only [step, specStep, ho, hd, hb, e, key, takeOk_map_some]
       simp
   | getitem i idx =>
     cases e : h.obj? i with
@@ -395,7 +407,7 @@ theorem step_eq_specStep (denOf : K → K) (h : Heap K) (op : HOp K) (w : WF h) 
       simp only [step, specStep, e, (w.obj e).1, getItemLen_eq t (w.obj e).2]
   | len i =>
     cases ho : h.objs[i]? with
-    | none => simp only [step, specStep, ho, obj?_none_of_objs ho]
+    | none => simp only [step, specStep, ho, obj?_none_of_objs ho, Heap.whyNot]
     | some o =>
       obtain ⟨t, e⟩ := w.obj_of_get ho
       simp only [step, specStep, ho, e, (w.obj e).1]
@@ -437,7 +449,7 @@ theorem histModel_eq_histSpec (denOf : K → K) (ops : List (HOp K)) : ∀ (h : 
   | cons op ops ih =>
     intro h w hs
     simp only [histModel, histSpec]
-    rw [← step_eq_specStep denOf h op w]
+    rw [← step_eq_specStep denOf h op w (hs op (by simp))]
     rw [ih _ (step_WF denOf h op w (hs op (by simp))) (fun o ho => hs o (by simp [ho]))]
 
 /-! ### a failing step leaves the heap as it was -/
@@ -445,8 +457,9 @@ theorem histModel_eq_histSpec (denOf : K → K) (ops : List (HOp K)) : ∀ (h : 
 theorem alloc_obs (h : Heap K) (xs : List K) (c : K) : (h.alloc xs c).2 = .ref h.objs.length := rfl
 
 theorem step_err_unchanged (denOf : K → K) (h : Heap K) (op : HOp K) (e : String)
-    (he : (step denOf h op).2 = .err e) : (step denOf h op).1 = h := by
-  cases op <;> simp only [step] at he ⊢ <;> (repeat' split) <;> simp_all [Heap.alloc]
+    (hne : ¬ op.isUnsizedAssign) (he : (step denOf h op).2 = .err e) : (step denOf h op).1 = h := by
+  cases op <;> simp only [HOp.isUnsizedAssign, not_true_eq_false] at hne <;>
+    simp only [step] at he ⊢ <;> (repeat' split) <;> simp_all [Heap.alloc]
 
 /-! ### uses are pure, operators allocate, streams are isolated -/
 
@@ -517,6 +530,7 @@ theorem step_keeps_stream (denOf : K → K) (h : Heap K) (op : HOp K) {s : Nat} 
   | newList ys => exact ⟨ho, getElem?_append_some _ hx⟩
   | new l c => simp only [step]; split <;> exact ⟨ho, hx⟩
   | setTable i l => simp only [step]; split <;> exact ⟨ho, hx⟩
+  | setTableUnsized i => simp only [step]; split <;> exact ⟨ho, hx⟩
   | setCycles i c => simp only [step]; split <;> exact ⟨ho, hx⟩
   | call i f p =>
     simp only [step]
@@ -566,9 +580,10 @@ theorem call_read_current (denOf : K → K) (h : Heap K) (w : WF h) (i : Nat) (f
           (if (tableSpec xs (denOf o.cycles) f p n).length < n then "stop" else "fuel") := by
   obtain ⟨ho, hx⟩ := obj?_some e
   obtain ⟨hl, hne⟩ := w.obj e
+  have hb : o.broken = false := (w.2.1 o (List.mem_of_getElem? ho)).1
   have key := osc_read_eq xs hne (denOf o.cycles) f p 0 n
   simp only [Nat.zero_add, List.drop_zero] at key
-  simp only [step, ho, hd, if_false, List.getElem?_concat_length, Bool.false_eq_true, hx, hl,
+  simp only [step, ho, hd, hb, if_false, List.getElem?_concat_length, Bool.false_eq_true, hx, hl,
     Nat.zero_add, List.drop_zero, key, takeOk_map_some]
   simp [oscSpec]
 
